@@ -189,7 +189,7 @@ P = {
     "signature": c20_sig,
     "corrupt": c20_corrupt,
     "rule": "S2I vectors are distinct TLC states of the bounded model (one whole ClassFile raw value each); I2S records are class files (every hand-written sample of the independent assembler under each of its standard encodings, javac output of JDK 8/11/17, in the thorough tier also the JDK sample) and seeded random raw values; each runs the real read / write / length and is compared byte by byte with the specification",
-    "level_text": "The class-file layout of JVMS chapter 4 is written as one table (RawLayout.tla: field sequences with widths, count-prefix width of each table, nested structures, tag dispatch of the four tagged unions, attribute dispatch on the pool's Utf8 name, the pool slot rule, attribute_length = size of the following fields) for exactly the 18 structures, 17 constant kinds, 29 attribute kinds, 7 frame kinds, 9 verification types and 13 element-value kinds raw_class_file models; Encode, LenOf, Decode and the prescribed count/length fields are generic interpreters of that table. TLC checks on every case of the bounded universe (each attribute kind x 0..3 elements (x 0..3 in nested tables) x class/field/method/Code/record-component level x pools with a Long/Double before, between and after the names; every pool up to two constants of all kinds and up to three of Utf8/Long/Double; 0..3 interfaces x fields x methods x attributes; every frame x verification type x counts with tags at both ends of their ranges; element values nested to depth 2 in each of the five carriers; every ordered pair of attribute kinds; attributes found through a foreign name) that Decode(Encode(x)) = x, LenOf(x) = bytes of Encode(x), and that each count / attribute_length emitted is the declaratively prescribed one. Every case is replayed through ClassFile::{to_bytes, write, length, read} and the written bytes are compared byte for byte with the specification's (plus each count / length field cut out along the specification's cell widths, equality of the value read back, and for the well-formed families acceptance by the independent strict parser cfkit and by duke::read_class). Real class files (samples x encodings, javac corpus) are read and written back: TLC judges that every file the strict independent parser accepts is read, reproduced byte for byte with length() = size, and that the raw value the crate read - laid out by the specification - has the file's size and exactly the count / length fields the independent parser found in the file; seeded random raw values (all kinds at all levels, tables up to 6, numbers over their whole width, 25 % with two-slot constants) are judged the same way by trace validation.",
+    "level_text": "The class-file layout of JVMS chapter 4 is written as one table (RawLayout.tla: field sequences with widths, count-prefix width of each table, nested structures, tag dispatch of the four tagged unions, attribute dispatch on the pool's Utf8 name, the pool slot rule, attribute_length = size of the following fields) for exactly the 18 structures, 17 constant kinds, 29 attribute kinds, 7 frame kinds, 9 verification types and 13 element-value kinds raw_class_file models; Encode, LenOf, Decode and the prescribed count/length fields are generic interpreters of that table. TLC checks on every case of the bounded universe (each attribute kind x 0..3 elements (x 0..3 in nested tables) x class/field/method/Code/record-component level x pools with a Long/Double before, between and after the names; every pool up to two constants of all kinds and up to three of Utf8/Long/Double; 0..3 interfaces x fields x methods x attributes; every frame x verification type x counts with tags at both ends of their ranges; element values nested to depth 2 in each of the five carriers; every ordered pair of attribute kinds; attributes found through a foreign name) that Decode(Encode(x)) = x, LenOf(x) = bytes of Encode(x), and that each count / attribute_length emitted is the declaratively prescribed one. Every case is replayed through ClassFile::{to_bytes, write, length, read} and the written bytes are compared byte for byte with the specification's (plus each count / length field cut out along the specification's cell widths, equality of the value read back, and for the well-formed families acceptance by the independent strict parser cfkit and by duke::read_class). Real class files (samples x encodings, javac corpus) are read and written back: TLC judges that every file the strict independent parser accepts is read, reproduced byte for byte with length() = size, and that the raw value the crate read - laid out by the specification - has the file's size and exactly the count / length fields the independent parser found in the file; seeded random raw values (all kinds at all levels, tables up to 6, numbers over their whole width, 25 % with two-slot constants) are judged the same way by trace validation. A value with an attribute variant the layout tables do not have (a repository that models more attributes) is judged by the byte-level laws alone instead of stopping the harness.",
     "level_note": "Layout conformance against a tabular specification plus byte equality on real files: TLA+ contributes the table-driven enumeration and a uniform judgement, not deeper reasoning. Bounded: MC tables have 0..3 elements and nesting depth 2; numbers in MC cases are small distinct values (the random family covers whole widths, three boundary values cover counts of 255/256/300, Utf8 of 65535 bytes and u4 lengths above 65535; u4 data are carried as two halves because TLC integers are 32 bit, u4 counts/lengths above 2^31 are not generated). Bytecode inside Code and the bodies of attributes the crate keeps as bytes (type annotations, unknown names) are opaque to the specification as they are to the crate. The comparison of count/length fields with the independent parser is skipped for files carrying a modelled attribute name in a location where JVMS Table 4.7-C does not define it; raw values of classes larger than 40000 bytes are not shipped to TLC (byte equality is still judged). Trusted: TLC, cfkit (independent parser/assembler: decides which inputs are well-formed and extracts the input's count/length spans), the JSON <-> raw_class_file struct conversion in c20.rs (by field name). Known findings (pool slot rule, NestMembers length, MethodParameters count width, attribute dispatch regardless of body/location) are matched by narrow signatures - first disagreeing cell and its offset from the prescribed value, or the refused file's feature; a class file whose pool holds a Long/Double cannot be examined further until that defect is repaired (15 % of the corpus, and every sample under the two encodings that pad the pool).",
     "assumptions": ["TLC/SANY/CommunityModules", "cfkit strict parser = well-formedness of input class files; cfkit span map = count/length fields of a file",
                     "harness conversion JSON raw value <-> raw_class_file structs by field name (c20.rs)",
